@@ -56,3 +56,10 @@ def main(run, replay_case):
         print(f"replay {r['key']}: holds on this tree"); sys.exit(0)
     rep = run(a.prop, a.tier, a.seed)
     rep.write(a.out)
+
+
+def set_load_factor(L=1000):
+    """the block size of the token store is a module constant (1000): corpus documents fit into one block, so the drivers re-run part of their cases with a small
+    block size, under which the same documents span many blocks and ordinary edits split and merge blocks (single-threaded drivers: the constants are set and reset around a case)"""
+    from autobean_refactor import token_store as ts
+    ts._LOAD_FACTOR = L; ts._DOUBLE_LOAD_FACTOR = L * 2; ts._HALF_LOAD_FACTOR = L // 2; ts._ONE_HALF_LOAD_FACTOR = L + L // 2
